@@ -414,3 +414,55 @@ pub fn scmp(a: &B, b: &B) -> std::cmp::Ordering {
     }
     std::cmp::Ordering::Equal
 }
+
+// ---------------------------------------------------------------------------------------------
+// exact sign-magnitude helpers, used to decide preconditions of `unchecked_*` calls without asking
+// the library under test
+
+/// (negative?, magnitude) of a pattern read as signed / unsigned
+pub fn to_sm(a: &B, signed: bool) -> (bool, B) {
+    if signed && a[a.len() - 1] & 0x80 != 0 {
+        (true, trim(negate(a)))
+    } else {
+        (false, trim(a.clone()))
+    }
+}
+fn sm_add(x: &(bool, B), y: &(bool, B)) -> (bool, B) {
+    if x.0 == y.0 {
+        (x.0, trim(uadd(&x.1, &y.1)))
+    } else if ucmp(&x.1, &y.1) != std::cmp::Ordering::Less {
+        let m = trim(usub(&x.1, &y.1));
+        (x.0 && !m.is_empty(), m)
+    } else {
+        (y.0, trim(usub(&y.1, &x.1)))
+    }
+}
+/// is the exact integer (neg, mag) representable in n bytes, signed or unsigned?
+pub fn sm_fits(v: &(bool, B), n: usize, signed: bool) -> bool {
+    let m = trim(v.1.clone());
+    if m.is_empty() {
+        return true;
+    }
+    if !signed {
+        return !v.0 && m.len() <= n;
+    }
+    let lim = trim(smin(n)); // 2^(8n-1)
+    match ucmp(&m, &lim) {
+        std::cmp::Ordering::Less => true,
+        std::cmp::Ordering::Equal => v.0,
+        std::cmp::Ordering::Greater => false,
+    }
+}
+pub fn add_fits(a: &B, b: &B, signed: bool) -> bool {
+    sm_fits(&sm_add(&to_sm(a, signed), &to_sm(b, signed)), a.len(), signed)
+}
+pub fn sub_fits(a: &B, b: &B, signed: bool) -> bool {
+    let y = to_sm(b, signed);
+    let ny = (!y.0 && !y.1.is_empty(), y.1);
+    sm_fits(&sm_add(&to_sm(a, signed), &ny), a.len(), signed)
+}
+pub fn mul_fits(a: &B, b: &B, signed: bool) -> bool {
+    let (x, y) = (to_sm(a, signed), to_sm(b, signed));
+    let m = trim(umul(&x.1, &y.1));
+    sm_fits(&(x.0 != y.0 && !m.is_empty(), m), a.len(), signed)
+}
